@@ -579,7 +579,23 @@ pub fn run_unary_plan(cfg: &Cfg, plan: &UnaryPlan) -> (Part, Value, bool) {
         for &k in kinds {
             let provs: &[Prov] = if k == K::D || k == K::A { PROVS_SPARE } else { PROVS_PLAIN };
             let lengths = if plan.lat_short { enumr::lat_lengths_short(k) } else { enumr::lat_lengths(k) };
-            let dom = Arc::new(dom_lat(&mut part, &seen, k, &lengths, *runs, provs));
+            let mut dom = dom_lat(&mut part, &seen, k, &lengths, *runs, provs);
+            {
+                // word lattice at the top lengths
+                let mut have: std::collections::HashSet<Raw> = dom.iter().map(|x| x.v.raw()).collect();
+                let w = k.word();
+                let top = k.cap().unwrap_or(4 * w);
+                for l in [top, top - 1, top - w + 1] {
+                    for m in enumr::wordlat(l, w, !plan.lat_short) {
+                        for x in roots_of(&mut part, &seen, k, &m, PROVS_PLAIN) {
+                            if have.insert(x.v.raw()) {
+                                dom.push(x);
+                            }
+                        }
+                    }
+                }
+            }
+            let dom = Arc::new(dom);
             let mut lo = 0;
             while lo < dom.len() {
                 let hi = (lo + 16).min(dom.len());
